@@ -579,6 +579,7 @@ def run(eng, run):
     run.attempt(_c12.check_fifo, eng, RuleAlias(run, "C08.locks"))  # the TLS write lock is the backend's fair lock: one holder at a time, waiters by identity
     run.attempt(check_crossed_keywords, eng, run, "C08.conf", ("lowlevel.api_async.transports",), 2)  # handshake / shutdown timeouts reach the TLS layer uncrossed
     run.attempt(_c04.check_latch_after_operation, eng, RuleAlias(run, "C08.conf"))  # a refused send_eof() over TLS must not make later writes fail
+    run.attempt(_c04.check_iterable_consumed, eng, RuleAlias(run, "C08.drain"))  # the bytes written are all the bytes of the iterable: an empty batch is not the end of it
     run.end_of_rules()
 
 
@@ -604,6 +605,8 @@ def _nest_locks(fn):
     h = find_handler(fn, "_ssl_module.SSLWantReadError")
     inner = next(t for t in h.body if isinstance(t, ast.Try))
     first, second = inner.body
+    if isinstance(first, ast.If):  # `if self._write_bio.pending:` around the flush (since the F10 fix): the mutant takes the lock unconditionally
+        first = first.body[0]
     first.body.append(second)
     inner.body = [first]
 
@@ -614,7 +617,7 @@ MUTANTS = [
     Variant("flush-after-read", _R, _swap_flush_and_read, "C08.flush", why="handshake flight stays in memory while we wait for the answer"),
     Variant("single-lock-both-directions", _R, _single_lock, "C08.locks", why="a parked reader blocks every writer"),
     Variant("nested-locks", _R, _nest_locks, "C08.locks"),
-    Variant("no-flush-on-success", _R, lambda fn: [setattr(t, "orelse", [s for s in t.orelse if not isinstance(s, ast.AsyncWith)]) for t in ast.walk(fn) if isinstance(t, ast.Try) and t.orelse], "C08.flush",
+    Variant("no-flush-on-success", _R, lambda fn: [setattr(t, "orelse", [s for s in t.orelse if not isinstance(s, (ast.AsyncWith, ast.If))]) for t in ast.walk(fn) if isinstance(t, ast.Try) and t.orelse], "C08.flush",
             why="send_all() returns although the ciphertext is still in the BIO"),
     Variant("bounded-bio-read", _R, lambda fn: replace_expr(fn, "self._write_bio.read()", "self._write_bio.read(16384)", nth=0, count=3), "C08.conf"),
     Variant("oserror-arm-no-eof", _R, lambda fn: delete_stmt(find_handler(fn, "OSError"), stmt_is("self._write_bio.write_eof()")), "C08.eofbio"),
